@@ -7,6 +7,7 @@ props = [json.loads(l)['id'] for l in open(f'{V}/properties.jsonl')]
 
 # property -> (category, level text, technique, level_note)
 CHECKS = {
+ 'C03': ('exploration', 'every expression node kind over all tuples of 24 leaves (ill-typed combinations included) on all rows of the product domain of the mentioned columns, second layer of binary/unary/cast nodes over all first-layer children, as projection and as WHERE, against an independent reference evaluator (value / error / open); statement shapes (projection lists x filters x line sequences)', 'bounded-exhaustive enumeration of programs (expression trees to depth 2) x input rows against an independent reference evaluator', 'trusted: reference evaluator in the harness (refmodel/expr.rs) restricted to what the property fixes; open points not compared; TZ=UTC'),
  'C06': ('exploration', 'metamorphic relation explored exhaustively within bounds: every statement of the corpus x every clean line sequence x every single and double insertion of every noise line at every position x batch and incremental drivers (also on the joined side); admission rule checked on NOT NULL / DEFAULT tables', 'bounded-exhaustive enumeration of noise insertions with a same-build metamorphic oracle', 'trusted: same-build oracle; noise alphabets in the harness'),
  'C17': ('exploration', 'all rows of 1..2 columns over a 43-value printable domain (3 columns reduced) x 3 formats x single_result x result shapes through the public OutputPrinter; JSON parse-back (exact INT, bit-exact REAL, text, arrays), CSV header/field accounting, text pairs, println accounting', 'bounded-exhaustive enumeration of result rows and result shapes with a parse-back oracle', 'trusted: serde_json as JSON parser, std float parser; REAL two-decimal text form adopted'),
  'C18': ('exploration', 'corpus x formats x table-definition contexts x controlled hash seeds (LD_PRELOAD getrandom shim, fresh thread per replica) x fresh processes; byte-identical output required; canary map proves seeds permute iteration orders. Exhaustive over the bounded seed set only', 'exhaustive enumeration of a bounded set of hash seeds (environment nondeterminism owned through a getrandom shim) with byte-equality oracle', 'trusted: std RandomState takes keys from libc getrandom (checked at run time); seed set is a bounded subset of the key space'),
